@@ -17,7 +17,7 @@ for p in props:
         c=src['checks'][pid]
         m['checks'].append({"property_id":pid,"quick_cmd":"./check %s quick"%pid,"thorough_cmd":"./check %s thorough"%pid,
           "evidence_file":"/verif/evidence/%s.json"%pid,"replay_cmd_template":"cat {path}","engine":"govc",
-          "level_claimed":{"category":"proof","text":c['text'],"design_ref":c.get('design_ref','DESIGN.md section 6 '+pid)},
+          "level_claimed":{"category":"proof","text":c['text'],"design_ref":c.get('design_ref','DESIGN.md section 0.1 (as built); section 6 '+pid+' (plan)')},
           "level_note":c['note'],"technique":c.get('technique',"contract-based deductive verification: WP/VC generation over go/ssa from //@ contracts, discharged by z3/cvc5")})
     else:
         m['not_applicable'].append({"property_id":pid,"reason":src['not_applicable'].get(pid,"not reached yet (framework under construction)")})
